@@ -868,6 +868,38 @@ def bl3(ctx, R):
             R.check(own, key, sfi.where(target), "stored from the object's own ToC mask",
                     "byte order stored on an object from `%s` (%s): segments of different byte order in one file would be "
                     "decoded with a stale byte order" % (unparse(value), why2))
+    # (e2) nor a value whose representation depends on it (a dtype with the byte order applied, a format string): segment objects
+    #      are shared between segments (`same as previous` index, copy()), data reader objects are made per segment read
+    def order_dependent(e, fi):
+        is_like = lambda x: isinstance(x, ast.Name) and (fi.qual, x.id) in flow.like
+        if is_like(e):
+            return True
+        if isinstance(e, ast.Call):
+            if isinstance(e.func, ast.Attribute) and e.func.attr == "newbyteorder":
+                return any(is_like(a) or order_dependent(a, fi) for a in e.args)
+            if call_name(e) in ("np.dtype", "numpy.dtype"):
+                return any(order_dependent(a, fi) for a in e.args)
+            return False          # what other calls return is decoded data, not a representation
+        if isinstance(e, ast.BinOp) and isinstance(e.op, (ast.Add, ast.Mod)):
+            return order_dependent(e.left, fi) or order_dependent(e.right, fi)
+        if isinstance(e, (ast.Attribute, ast.Subscript)):
+            return order_dependent(e.value, fi)
+        if isinstance(e, ast.IfExp):
+            return order_dependent(e.body, fi) or order_dependent(e.orelse, fi)
+        return False
+    n_e2 = 0
+    for fi in _funcs_in(prog, ("tdms_segment", "daqmx", "base_segment", "reader", "types")):
+        per_read = fi.cls is not None and prog.is_subclass(fi.cls, prog.cls("base_segment.BaseDataReader")) and fi.name == "__init__"
+        for n in walk_body(fi.node):
+            if isinstance(n, ast.Assign):
+                for t in n.targets:
+                    if isinstance(t, ast.Attribute) and dotted(t.value) == "self" and not per_read and t.attr not in flow.like_attrs \
+                            and order_dependent(n.value, fi):
+                        n_e2 += 1
+                        R.violation("%s::store .%s" % (fi.qual, t.attr), fi.where(n), "`%s` keeps a value whose representation depends on the byte order of the "
+                                    "segment being parsed on an object that outlives it (segment objects are shared between segments through `same as "
+                                    "previous` raw data indexes): a later segment with the other byte order is decoded with the stale one" % unparse(n)[:90])
+    R.ok("reader::no byte-order dependent representation is kept on shared objects", "nptdms", "no dtype / format with a byte order applied is stored on an object")
     # (f) writer side is little-endian only
     wmods = ("writer", "types", "timestamp")
     for fi in _funcs_in(prog, wmods):
